@@ -646,7 +646,13 @@ where
                 debug!("NoopCommitted: term={}", term);
                 // on_noop_committed already called directly in drain_commit_actions.
                 // Only notify leader change listeners here (requires Raft<T> access).
-                self.notify_leader_change(Some(self.node_id), term);
+                // The event may be handled after this node was deposed (e.g. a single-voter
+                // leader whose noop flush raced with an AppendEntries of a newer term): announcing
+                // "<self> leads <term>" then would report a leader that no longer leads and a term
+                // lower than one already announced.
+                if self.role.is_leader() && self.role.current_term() == term {
+                    self.notify_leader_change(Some(self.node_id), term);
+                }
             }
             InternalEvent::FatalError { source, error } => {
                 error!(%self.node_id, %source, %error, "Fatal error from SM worker — shutting down");
